@@ -10,8 +10,13 @@
    The grammar is the parser model AFTER _resolve_rule_refs: every rule reference is the
    referenced rule's root expression (root = True); a rule whose body is a single rule
    reference has become an alias of the referenced rule's expression
-   (rule.rule_name <> cls.__name__). *)
-From TxV Require Import Core.Base.
+   (rule.rule_name <> cls.__name__).
+
+   Gen/SrcKinds.v (regenerated from the source on every run by tools/translate/kinds_tr.py, which
+   also compares the text of the transcribed functions) supplies the facts the model would
+   otherwise hard-code: which branches set has_change, whether resolved_classes is emptied per
+   pass, the test that picks the abstract result, the visited test of textx_isinstance. *)
+From TxV Require Import Core.Base Gen.SrcKinds.
 
 Inductive kind := KMatch | KAbstract | KCommon.
 
@@ -62,14 +67,20 @@ Definition upd {A} (f : nat -> A) (k : nat) (v : A) : nat -> A :=
 
 Definition mark (x : nat) (s : st) : st :=
   {| types := types s; inh := inh s; resolved := upd (resolved s) x true; changed := changed s; oof := oof s |}.
+(* does `cls._tx_type = k` come with `has_change[0] = True` in the source? *)
+Definition sets_change (k : kind) : bool :=
+  match k with KCommon => common_sets_change | KAbstract => abstract_sets_change | KMatch => false end.
 Definition set_type (x : nat) (k : kind) (s : st) : st :=
-  {| types := upd (types s) x k; inh := inh s; resolved := resolved s; changed := true; oof := oof s |}.
+  {| types := upd (types s) x k; inh := inh s; resolved := resolved s;
+     changed := sets_change k || changed s; oof := oof s |}.
 Definition set_inh (x : nat) (l : list nat) (s : st) : st :=
   {| types := types s; inh := upd (inh s) x l; resolved := resolved s; changed := changed s; oof := oof s |}.
 Definition set_oof (s : st) : st :=
   {| types := types s; inh := inh s; resolved := resolved s; changed := changed s; oof := true |}.
 Definition reset (s : st) : st :=
-  {| types := types s; inh := inh s; resolved := fun _ => false; changed := false; oof := oof s |}.
+  {| types := types s; inh := inh s;
+     resolved := if pass_resets_resolved then (fun _ => false) else resolved s;
+     changed := false; oof := oof s |}.
 
 Definition mem (x : nat) (l : list nat) : bool := existsb (Nat.eqb x) l.
 
@@ -184,7 +195,7 @@ Fixpoint dfs (inhf : nat -> list nat) (fuel : nat) (k r : nat) (vis : nat -> boo
          match l with
          | [] => Some (false, vis)
          | c :: l' =>
-             if vis c then go l' vis else
+             if isinstance_visited && vis c then go l' vis else
              match dfs inhf f k c vis with
              | None => None
              | Some (true, v) => Some (true, v)
@@ -229,7 +240,7 @@ Definition flat_list (l : list tree) : list N := flat_map flat l.
 Definition nonmatch_node (K : nat -> kind) (t : tree) : bool :=
   match t with
   | TT _ => false
-  | TN r _ => negb (is_match (K r))
+  | TN r _ => if abstract_pick_by_kind then negb (is_match (K r)) else true
   | TA _ => true
   end.
 
@@ -347,3 +358,38 @@ Definition rule_firsts (g : list rule) (K : nat -> kind) (x : nat) : list nat :=
 Inductive yields (g : list rule) (K : nat -> kind) : nat -> nat -> Prop :=
 | yields_refl x : yields g K x x
 | yields_step x y z : K x = KAbstract -> In y (rule_firsts g K x) -> yields g K y z -> yields g K x z.
+
+(* rules of all NonTerminal nodes of a parse tree *)
+Fixpoint node_rules (t : tree) : list nat :=
+  match t with
+  | TT _ => []
+  | TN r kids => r :: (fix go (l : list tree) : list nat := match l with [] => [] | k :: l' => node_rules k ++ go l' end) kids
+  | TA kids => (fix go (l : list tree) : list nat := match l with [] => [] | k :: l' => node_rules k ++ go l' end) kids
+  end.
+
+(* ------------------------------------------------------------------ well-formedness for complete inheritance lists *)
+(* the expression holds a reference to a rule that is not a match rule *)
+Definition has_nm (K : nat -> kind) (e : expr) : bool :=
+  existsb (fun r => negb (is_match (K r))) (refs e).
+
+(* no sequence has an element that holds a non-match reference, can nevertheless be skipped, and is
+   followed by another element holding a non-match reference *)
+Fixpoint seq_ok (K : nat -> kind) (e : expr) : bool :=
+  match e with
+  | Term | Ref _ => true
+  | Seq es => (fix go (l : list expr) : bool :=
+                 match l with
+                 | [] => true
+                 | x :: l' => seq_ok K x
+                              && (if has_nm K x && skippable K x then negb (existsb (has_nm K) l') else true)
+                              && go l'
+                 end) es
+  | Choice es => (fix go (l : list expr) : bool := match l with [] => true | x :: l' => seq_ok K x && go l' end) es
+  | Opt e' | Plus e' => seq_ok K e'
+  end.
+
+(* wf_inh g K rank: no cycle through abstract rules (rank decreases along references between
+   abstract rules) and every body of an abstract rule is seq_ok *)
+Definition wf_inh (g : list rule) (K : nat -> kind) (rank : nat -> nat) : Prop :=
+  (forall x y, K x = KAbstract -> In y (rule_refs g x) -> K y = KAbstract -> rank y < rank x) /\
+  (forall x e, K x = KAbstract -> r_body (rule_of g x) = Body e -> seq_ok K e = true).
